@@ -20,10 +20,10 @@ Proof. vm_compute. auto. Qed.
 
 (** drivers: a terminal (early), a driver whose init fails with "boom" after logging "a\nb", a
     console, a second terminal, a driver whose probe finds nothing *)
-Definition d_tty := mkDriver 0 (-128) (Some (mkProbed KTTY [118; 116] 0 0 1 None [])).
-Definition d_bad := mkDriver 1 0 (Some (mkProbed KOther [120] 1 2 3 (Some [98; 111; 111; 109]) [[97; 10; 98]])).
-Definition d_con := mkDriver 2 0 (Some (mkProbed KConsole [99] 0 1 0 None [])).
-Definition d_tty2 := mkDriver 3 127 (Some (mkProbed KTTY [116; 50] 0 0 2 None [])).
+Definition d_tty := mkDriver 0 (-128) (Some (mkProbed KTTY [118; 116] 0 0 1 None [] false false)).
+Definition d_bad := mkDriver 1 0 (Some (mkProbed KOther [120] 1 2 3 (Some [98; 111; 111; 109]) [[97; 10; 98]] false false)).
+Definition d_con := mkDriver 2 0 (Some (mkProbed KConsole [99] 0 1 0 None [] true true)).
+Definition d_tty2 := mkDriver 3 127 (Some (mkProbed KTTY [116; 50] 0 0 2 None [] false false)).
 Definition d_none := mkDriver 4 127 None.
 Definition ex_registered := [d_none; d_con; d_tty2; d_tty; d_bad].
 Definition ex_sorted := [d_tty; d_bad; d_con; d_tty2; d_none].
@@ -47,7 +47,7 @@ Proof.
   repeat constructor; simpl; intuition discriminate.
 Qed.
 
-(** "hi\n" is logged early; the terminal comes up first, the console third: the terminal receives the
+(** "hi\n" is logged early; the terminal comes up first, the console (with font and logo support) third: the terminal receives the
     early log, then later output; the failed driver is reported with its message *)
 Definition ex_tty_bytes : list N :=
   [104; 105; 10]
@@ -65,7 +65,8 @@ Example C16_bringup_example :
       probes (h_trace st) = [0; 1; 2; 3; 4] /\ inits (h_trace st) = [0; 1; 2; 3] /\
       h_tty st = Some 0 /\ h_console st = Some 2 /\ h_active st = [0; 2; 3] /\
       attaches (h_trace st) = [(0, 2)] /\ states (h_trace st) = [(0, 1)] /\ h_sink st = STTY 0 /\
-      tty_bytes 0 (h_trace st) = ex_tty_bytes /\ tty_bytes 3 (h_trace st) = []
+      tty_bytes 0 (h_trace st) = ex_tty_bytes /\ tty_bytes 3 (h_trace st) = [] /\
+      logos (h_trace st) = [2] /\ fonts (h_trace st) = [2]
   | _ => False
   end.
 Proof. vm_compute. repeat split; reflexivity. Qed.
@@ -87,6 +88,6 @@ Example C16_prefix_example :
 Proof. split; vm_compute; reflexivity. Qed.
 
 Example C16_failed_nonvacuous :
-  d_probe d_bad = Some (mkProbed KOther [120] 1 2 3 (Some [98; 111; 111; 109]) [[97; 10; 98]]) /\
+  d_probe d_bad = Some (mkProbed KOther [120] 1 2 3 (Some [98; 111; 111; 109]) [[97; 10; 98]] false false) /\
   length (a_numbuf init_abs) = N.to_nat kfmt_numFmtBufLen.
 Proof. split; reflexivity. Qed.
